@@ -3955,7 +3955,13 @@ def fix_if_return(source: str) -> str:
     """
     replace = "return {{condition}}"
 
-    yield from processing.find_replace(source, find, replace, transaction=0)
+    # Only a comparison or a negation is known to be True or False itself
+    boolean = (ast.Compare, ast.UnaryOp(op=ast.Not))
+    yield from processing.find_replace(source, find, replace, condition=boolean, transaction=0)
+
+    replace = "return bool({{condition}})"
+
+    yield from processing.find_replace(source, find, replace, transaction=3)
 
     find = """
     if {{condition}}:
@@ -3986,7 +3992,13 @@ def fix_if_assign(source: str) -> str:
     """
     replace = "{{variable}} = {{condition}}"
 
-    yield from processing.find_replace(source, find, replace, transaction=0)
+    # Only a comparison or a negation is known to be True or False itself
+    boolean = (ast.Compare, ast.UnaryOp(op=ast.Not))
+    yield from processing.find_replace(source, find, replace, condition=boolean, transaction=0)
+
+    replace = "{{variable}} = bool({{condition}})"
+
+    yield from processing.find_replace(source, find, replace, transaction=3)
 
     find = """
     if {{condition}}:
